@@ -139,3 +139,52 @@ package selftest
 
 //@ func okWithoutFrontier
 //@   order frontier_before_ok: store s.frontier before return ok
+
+// ---- maps
+//@ func mapSetGet
+//@   ensures same: ok && r == v
+//@   ensures other: k2 != k ==> (!ok2 && r2 == 0)
+
+//@ func mapSetGetBad
+//@   ensures other: !ok2 && r2 == 0
+
+//@ func mapNilRead
+//@   ensures zero: r0 == 0
+
+//@ func mapDelete
+//@   ensures gone: !r0
+
+//@ func mapOverwrite
+//@   ensures kept: forall(j, 0, 256, m[byte(j)] == old(m[byte(j)]))
+
+//@ func mapOtherKeysKept
+//@   ensures kept: forall(j, 0, 256, byte(j) != k ==> (m[byte(j)] == old(m[byte(j)]) && has(m, byte(j)) == old(has(m, byte(j)))))
+//@   ensures set: m != nil ==> (has(m, k) && m[k] == 7)
+
+//@ func mapHavocByCall
+//@   ensures kept: m != nil ==> m[k] == 7
+
+// spec_anyKey: a rigid logical variable (body-less spec function without arguments = one unknown constant)
+//@ func mapCopySubset
+//@   ensures subset: has(r0, spec_anyKey()) ==> (has(src, spec_anyKey()) && r0[spec_anyKey()] == src[spec_anyKey()])
+//@   loop 1 invariant sub: has(dst, spec_anyKey()) ==> (has(src, spec_anyKey()) && dst[spec_anyKey()] == src[spec_anyKey()])
+
+//@ func mapCopyWrongSource
+//@   ensures subset: has(r0, spec_anyKey()) ==> (has(src, spec_anyKey()) && r0[spec_anyKey()] == src[spec_anyKey()])
+//@   loop 1 invariant sub: has(dst, spec_anyKey()) ==> (has(src, spec_anyKey()) && dst[spec_anyKey()] == src[spec_anyKey()])
+
+//@ func mapMinPerKey
+//@   ensures le: old(has(m, id)) ==> (has(m, id) && m[id] <= off && m[id] <= old(m[id]))
+//@   ensures others: forall(j, 0, 256, byte(j) != id ==> (m[byte(j)] == old(m[byte(j)]) && has(m, byte(j)) == old(has(m, byte(j)))))
+//@   ensures noinsert: !old(has(m, id)) ==> !has(m, id)
+
+//@ func mapMinPerKeyBad
+//@   ensures le: old(has(m, id)) ==> (has(m, id) && m[id] <= off)
+
+//@ func mapStringKeysMayCollide
+//@   ensures absent: !r0
+
+//@ func mapClear
+//@   ensures gone: !r0
+
+func spec_anyKey() string { return spec_anyKey() }
